@@ -194,11 +194,10 @@ def if_stepper(chk: Check) -> None:
     ff = chk.ctx.facts.analyse(f)
     none_tests = [x for x in cfg.nodes if x.kind == 'test' and ('none', 'self._child_stepper') in ff.cond_atoms(x.ast.test, True) | ff.cond_atoms(x.ast.test, False)]
     ok = False
-    if none_tests:
-        nt = none_tests[0]
+    for nt in none_tests:   # any of the tests of the child will do: it has to dominate the search and keep it off its "there is a child" side
         none_label = 'true' if ('none', 'self._child_stepper') in ff.cond_atoms(nt.ast.test, True) else 'false'
         other = 'false' if none_label == 'true' else 'true'
-        ok = cfg.must_pass(cfg.entry, [t], lambda m: m is nt, edge_ok=no_exc) and t.id not in cfg.reachable([s for s, l in nt.succ if l == other], include_src=True, edge_ok=no_exc)
+        ok = ok or (cfg.must_pass(cfg.entry, [t], lambda m, nt=nt: m is nt, edge_ok=no_exc) and t.id not in cfg.reachable([s for s, l in nt.succ if l == other], include_src=True, edge_ok=no_exc))
     chk.ob('DOM-if-short-circuit', f, ok, 'predicates are evaluated only when no branch is being executed (a chosen branch is never re-decided)', kind='only-without-child')
     creates = [c for c in calls_in_func(f, 'create_stepper')]
     ok = len(creates) == 1 and norm(Resolver(f).expand(creates[0].func.value)) == 'self._if_instruction[self._pos].body'
